@@ -112,6 +112,23 @@ DEFS = {
                         "#operations x position <= 4.5e12 so that legitimate float accumulation of the generator's clock stays below 1e-3 sample"],
         "components": {"real": ["pyphysim.channels.fading_generators.JakesSampleGenerator"], "fake": ["request/skip scheduler (the generator's clock is jumped with skip)", "RandomState seed"], "stub_or_not_run": []},
     },
+    "C03": {
+        "module": "worlds.c03", "level": "exploration",
+        "stages": {
+            "quick": [{"name": "transmission histories", "n": 20000, "wall": 50, "opts": {"chunk": 50}}],
+            "thorough": [{"name": "transmission histories", "n": 3000000, "wall": 840, "opts": {"chunk": 100}}],
+        },
+        "rule": ("plan = one channel object (TdlChannel, TdlMimoChannel, SuChannel, SuMimoChannel / SuChannel with unequal antennas, MuChannel, MuMimoChannel), Jakes or Rayleigh fading "
+                 "(all random sources seeded from the plan), a tap profile (1-8 arbitrary taps incl. colliding delays, or COST259), and 2-15 operations from time-domain transmission, "
+                 "frequency-domain transmission (fft 4-64; selection None / index array / slice incl. steps that do not divide the span), direction switch, path-loss change. "
+                 "No fault kinds exist for this property; the history part is thin (said in DESIGN.md). distinct = distinct event-log digests; non-trivial = at least two transmissions"),
+        "assumptions": ["response sample j is the one applied to input sample j (the implementation's convention for 'time-varying convolution')",
+                        "the response is queried immediately after its transmission; changing the path loss between a transmission and its query is outside the quantifier",
+                        "the Jakes process itself is checked under C14; here only consistency between output and reported response is decided"],
+        "components": {"real": ["fading.TdlChannel/TdlMimoChannel/TdlChannelProfile/TdlImpulseResponse", "singleuser.SuChannel/SuMimoChannel", "multiuser.MuChannel/MuMimoChannel",
+                                "fading_generators.JakesSampleGenerator/RayleighSampleGenerator"],
+                       "fake": ["operation scheduler", "numpy global RNG and RandomState seeds"], "stub_or_not_run": []},
+    },
 }
 
 
